@@ -189,6 +189,10 @@ def main(tier_: str) -> int:
             unknown = [bytes([0x55] * 16), bytes(range(100, 116))]
             reqs = [[known[0]], [unknown[0]], [known[0], known[1]], [known[0], known[0]], [unknown[0], known[2], unknown[1]], [], known + unknown]
             reqs += [[k] for k in known[-3:]] + [[bytes([0xfb] * 15 + [0xfa])]]
+            # ids that are not 16 bytes long are unknown ids like any other: a short one, the ASCII hex text and the base64 text of a
+            # stored id (32 / 24 bytes), alone and next to a known id
+            odd = [bytes([0xf0, 0xf1, 0xf2, 0xf3, 0xf4]), known[0].hex().encode('ascii'), base64.b64encode(known[1]), b'', bytes(17)]
+            reqs += [[o] for o in odd] + [[known[0], o] for o in odd] + [[odd[1], known[2], odd[2]]]
             for _ in range(6 if tier_ == 'quick' else 60):
                 reqs.append([rng.choice(known + unknown) for _ in range(rng.randrange(0, 5))])
             for rq in reqs:
